@@ -22,6 +22,9 @@ def run(ctx):
         ctx.pipe([h, "ops", "1", "9", "16"], "par", label="operators-ntheta-1-mod-3")
         ctx.pipe([h, "vec"], "par", label="vector-kernels")
         ctx.pipe([h, "solve", "3"], "par", label="solves")
+        # transfers above the 10 000-node threshold (the optimised loops fork there), non-uniform angles, threads 1,2,3,4,7
+        ho = ctx.build_harness("h_ops")
+        ctx.pipe([ho, "transfer", "1", "17", "32"], "transfer", label="transfers-above-threshold")
     else:
         ctx.pipe([h, "ops", "20", "17", "32"], "par", label="operators")
         ctx.pipe([h, "ops", "10", "13", "24"], "par", label="operators-ntheta-div-3")
@@ -30,6 +33,8 @@ def run(ctx):
         ctx.pipe([h, "ops", "3", "65", "256"], "par", label="operators-above-threshold")
         ctx.pipe([h, "vec"], "par", label="vector-kernels")
         ctx.pipe([h, "solve", "30"], "par", label="solves")
+        ho = ctx.build_harness("h_ops")
+        ctx.pipe([ho, "transfer", "100", "17", "32"], "transfer", label="transfers-above-threshold")
     ctx.assumptions += ["OpenMP reductions combine partial sums in arrival order: norms are not bit-reproducible by specification and are only compared "
                         "to rounding (C12.reduce_chunks is the exact-arithmetic statement)",
                         "in COMBINED mode the smoother switch depends on a norm ratio; the solves of this check disable the tolerances so that no norm is evaluated",
